@@ -39,6 +39,13 @@ CHECKS.update({
          "order is required among re-sent requests only (what the statement says); a running back-off loop is allowed to continue after its last request is cancelled", "3/C10"),
 })
 
+CHECKS.update({
+ "C07": ("client-e2e", "exploration",
+         "per-broker request log of the simulated cluster + spy on the client's per-broker dispatch, compared with the metadata served and with the call's result",
+         "The real KafkaClient (real broker clients, protocol, codec) runs against the simulated cluster; sequential client calls of every kind with shuffled payload lists meet drawn subsets of refusing / dropping / silent / late brokers. Routing (leader named by a metadata served to this client; coordinator named by the last FindCoordinator answer; one request per broker, each payload once), result order, exact accounting of FailedPayloadsError, acks=0 success implies written, broker-agnostic requests try connected-at-call-time brokers first, then all known, then every bootstrap host.",
+         "calls are sequential inside a scenario; the routing instant is 'any metadata view current during the call' (weaker reading, see DESIGN); cluster model per DESIGN 2.3", "3/C07"),
+})
+
 PENDING = {}
 
 def main():
@@ -72,6 +79,7 @@ def main():
         "engines": [
             {"name": "pure", "path": "afkverif/props", "serves_properties": ["C15", "C18"], "kind_free_text": "direct calls of pure functions under generated inputs with reference oracles"},
             {"name": "brokerclient", "path": "afkverif/engines/bc.py", "serves_properties": ["C06", "C10"], "kind_free_text": "real _KafkaBrokerClient / KafkaBootstrapProtocol over simnet (virtual clock, in-memory transports) against a scripted raw server"},
+            {"name": "client-e2e", "path": "afkverif/engines/world.py", "serves_properties": ["C07"], "kind_free_text": "real KafkaClient stack on SimClock + simnet against simkafka (cluster model speaking the independent codec)"},
             {"name": "codec", "path": "afkverif/refproto.py", "serves_properties": ["C04", "C05", "C12"], "kind_free_text": "independent strict Kafka wire codec used as differential oracle"},
         ],
         "checks": checks,
